@@ -577,6 +577,58 @@ def vars_assigned_from(f, pred):
     return out
 
 
+def flows_into(f, expr, src_pred, _seen=None):
+    """flow-insensitive data dependence: does `expr` contain a node satisfying src_pred, directly or through the
+    definitions of the locals it reads?"""
+    seen = _seen if _seen is not None else set()
+    for y in ast.walk(expr):
+        if src_pred(y):
+            return True
+    for y in ast.walk(expr):
+        if isinstance(y, ast.Name) and isinstance(y.ctx, ast.Load) and y.id not in seen:
+            seen.add(y.id)
+            for d in local_defs(f, y.id):
+                e = d[1] if isinstance(d, tuple) else d
+                if isinstance(e, ast.AST) and flows_into(f, e, src_pred, seen):
+                    return True
+    return False
+
+
+def canon_text(f, e, depth=3):
+    """text of expression `e` that does not depend on how f names its locals: a local with exactly one plain
+    definition is replaced by that definition (depth-bounded); comprehension / lambda variables are numbered in
+    order of appearance."""
+    import copy
+
+    class Inline(ast.NodeTransformer):
+        def __init__(self, d):
+            self.d = d
+
+        def visit_Name(self, n):
+            if isinstance(n.ctx, ast.Load) and self.d > 0:
+                ds = local_defs(f, n.id)
+                if len(ds) == 1 and not isinstance(ds[0], tuple) and isinstance(ds[0], ast.AST):
+                    return Inline(self.d - 1).visit(copy.deepcopy(ds[0]))
+            return n
+    t = Inline(depth).visit(copy.deepcopy(e))
+    bound = {}
+    for y in ast.walk(t):
+        if isinstance(y, ast.comprehension):
+            for z in ast.walk(y.target):
+                if isinstance(z, ast.Name):
+                    bound.setdefault(z.id, f"_b{len(bound)}")
+        if isinstance(y, ast.Lambda):
+            for a in y.args.args:
+                bound.setdefault(a.arg, f"_b{len(bound)}")
+    for y in ast.walk(t):
+        if isinstance(y, ast.Name) and y.id in bound:
+            y.id = bound[y.id]
+        if isinstance(y, ast.arg) and y.arg in bound:
+            y.arg = bound[y.arg]
+    ast.fix_missing_locations(t)
+    return ast.unparse(t)
+
+
 def var_from_call(f, callee_name, index=None):
     """name of the local that receives the result of a call to <callee_name> (index: position in a tuple-unpack)"""
     for n in walk_shallow(f.node):
